@@ -97,4 +97,166 @@ example : binaryUpdate [1/4, 1/4, 1/2] [1/8, 1/4, 1/2, 1] [1, 0, 1, 1] = .ok ([2
   rw [binned_counts_eq _ _ _ (by decide +kernel) (by decide +kernel) (by decide +kernel) (by decide +kernel)]
   simp [tpAt, fpAt, fnAt]; decide +kernel
 
+/-! ## 3. multiclass / multilabel: both optimisation modes = per-threshold counting -/
+
+/-- `_multiclass_…_update_memory` (flat code `2(C·bucket + c) + [c = y]`, one `histc`, suffix sums):
+    entry `[j, c]` counts the one-vs-rest problem of class `c` at threshold `t[j]`. -/
+theorem multiclass_memory_counts_eq (t : List Q) (C : Nat) (rows : List (List Q)) (labs : List Nat)
+    (hs : t.Pairwise (· ≤ ·)) (hne : t ≠ []) (hC : 0 < C)
+    (hlen : rows.length = labs.length) (hl : ∀ l ∈ labs, l < C) :
+    mcMemory t C rows labs = .ok (countMats (ovr rows labs) C t) := by
+  have hT : 0 < t.length := List.length_pos_iff.mpr hne
+  have hall : labs.all (· < C) = true := by simpa using hl
+  have hbins : ¬ 2 * t.length * C = 0 := by
+    have := Nat.mul_pos (Nat.mul_pos (show 0 < 2 by omega) hT) hC; omega
+  have hcodes : ((rows.zip labs).flatMap fun p =>
+        (List.range C).map fun c => flatCode C t (colAt p.1 c) c (if c == p.2 then 1 else 0))
+      = codesOf C (fun p c => searchsortedRight t (colAt p.1 c)) (fun p c => if c == p.2 then 1 else 0) (rows.zip labs) := rfl
+  have hb : ∀ a ∈ rows.zip labs, ∀ s, s < C → (fun (p : List Q × Nat) c => if c == p.2 then 1 else 0) a s ≤ 1 := by
+    intro a _ s _; by_cases h : s = a.2 <;> simp [h]
+  have hmat := fun r hr => memMat_counts t hs C (rows.zip labs) (fun p c => colAt p.1 c)
+    (fun p c => if c == p.2 then 1 else 0) hb r hr
+  unfold mcMemory
+  simp only [hall, hbins, hcodes, Bool.not_true, Bool.false_eq_true, if_false, hmat 1 (by omega), hmat 0 (by omega),
+    classCounts_eq C rows labs hlen hl, ← ovr_eq_view]
+  unfold countMats
+  congr 3
+  exact fnFrom_eq t C (ovr rows labs)
+
+/-- `_multiclass_…_update_vectorized` (broadcast comparison `input >= threshold[:,None,None]`). -/
+theorem multiclass_vectorized_counts_eq (t : List Q) (C : Nat) (rows : List (List Q)) (labs : List Nat)
+    (hlen : rows.length = labs.length) (hl : ∀ l ∈ labs, l < C) :
+    mcVectorized t C rows labs = .ok (countMats (ovr rows labs) C t) := by
+  have hall : labs.all (· < C) = true := by simpa using hl
+  unfold mcVectorized countMats
+  simp only [hall, Bool.not_true, Bool.false_eq_true, if_false, mcVecTp_eq, mcVecFp_eq _ _ _ _ hlen, mcVecFn_eq _ _ _ _ hlen]
+
+/-- both modes reject a label outside `[0, C)` (`F.one_hot` / the indexed `+= 1`). -/
+theorem multiclass_label_out_of_range (t : List Q) (C : Nat) (rows : List (List Q)) (labs : List Nat)
+    (hl : ¬ ∀ l ∈ labs, l < C) :
+    mcVectorized t C rows labs = .error .runtime ∧ mcMemory t C rows labs = .error .index := by
+  have hall : ¬ labs.all (· < C) = true := by simpa using hl
+  unfold mcVectorized mcMemory
+  simp [hall]
+
+/-- `_multilabel_…_update_memory`: entry `[j, l]` counts label column `l` at threshold `t[j]`. -/
+theorem multilabel_memory_counts_eq (t : List Q) (L : Nat) (rows : List (List Q)) (tgts : List (List Nat))
+    (hs : t.Pairwise (· ≤ ·)) (hne : t ≠ []) (hL : 0 < L)
+    (hlen : rows.length = tgts.length) (h01 : ∀ r ∈ tgts, ∀ y ∈ r, y ≤ 1) :
+    mlMemory t L rows tgts = .ok (countMats (labelCol rows tgts) L t) := by
+  have hT : 0 < t.length := List.length_pos_iff.mpr hne
+  have hbins : ¬ 2 * t.length * L = 0 := by
+    have := Nat.mul_pos (Nat.mul_pos (show 0 < 2 by omega) hT) hL; omega
+  have hcodes : ((rows.zip tgts).flatMap fun p =>
+        (List.range L).map fun l => flatCode L t (colAt p.1 l) l (tgtAt p.2 l))
+      = codesOf L (fun p l => searchsortedRight t (colAt p.1 l)) (fun p l => tgtAt p.2 l) (rows.zip tgts) := rfl
+  have hb : ∀ a ∈ rows.zip tgts, ∀ s, s < L → (fun (p : List Q × List Nat) l => tgtAt p.2 l) a s ≤ 1 :=
+    fun a ha s _ => tgtAt_le a.2 s (h01 a.2 (List.of_mem_zip ha).2)
+  have hmat := fun r hr => memMat_counts t hs L (rows.zip tgts) (fun p l => colAt p.1 l)
+    (fun p l => tgtAt p.2 l) hb r hr
+  have hcc : ((List.range L).map fun l => qsum (tgts.map fun r => ((tgtAt r l : Nat) : Q)))
+      = (List.range L).map fun l => (((labelCol rows tgts l).countP fun p => p.2 == 1 : Nat) : Q) :=
+    List.map_congr_left fun l _ => mlCounts_eq l rows tgts hlen h01
+  unfold mlMemory
+  simp only [hbins, hcodes, if_false, hmat 1 (by omega), hmat 0 (by omega), hcc, ← labelCol_eq_view]
+  unfold countMats
+  congr 3
+  exact fnFrom_eq t L (labelCol rows tgts)
+
+/-- `_multilabel_…_update_vectorized` (`(labels & target).sum(1)` …). -/
+theorem multilabel_vectorized_counts_eq (t : List Q) (L : Nat) (rows : List (List Q)) (tgts : List (List Nat))
+    (hlen : rows.length = tgts.length) (h01 : ∀ r ∈ tgts, ∀ y ∈ r, y ≤ 1) :
+    mlVectorized t L rows tgts = countMats (labelCol rows tgts) L t := by
+  unfold mlVectorized countMats
+  simp only [mlVecTp_eq _ _ _ _ h01, mlVecFp_eq _ _ _ _ hlen h01, mlVecFn_eq _ _ _ _ hlen h01]
+
+/-- **the two optimisation modes agree** (multiclass): same `(num_tp, num_fp, num_fn)` on every valid
+    input, sorted non-empty thresholds; they also reject the same inputs (`multiclass_label_out_of_range`). -/
+theorem vectorized_eq_memory_multiclass (t : List Q) (C : Nat) (rows : List (List Q)) (labs : List Nat)
+    (hs : t.Pairwise (· ≤ ·)) (hne : t ≠ []) (hC : 0 < C)
+    (hlen : rows.length = labs.length) (hl : ∀ l ∈ labs, l < C) :
+    mcVectorized t C rows labs = mcMemory t C rows labs := by
+  rw [multiclass_vectorized_counts_eq t C rows labs hlen hl, multiclass_memory_counts_eq t C rows labs hs hne hC hlen hl]
+
+/-- **the two optimisation modes agree** (multilabel). -/
+theorem vectorized_eq_memory_multilabel (t : List Q) (L : Nat) (rows : List (List Q)) (tgts : List (List Nat))
+    (hs : t.Pairwise (· ≤ ·)) (hne : t ≠ []) (hL : 0 < L)
+    (hlen : rows.length = tgts.length) (h01 : ∀ r ∈ tgts, ∀ y ∈ r, y ≤ 1) :
+    .ok (mlVectorized t L rows tgts) = mlMemory t L rows tgts := by
+  rw [multilabel_vectorized_counts_eq t L rows tgts hlen h01, multilabel_memory_counts_eq t L rows tgts hs hne hL hlen h01]
+
+/-- on an empty threshold tensor the modes do NOT agree: `histc(bins=0)` raises in the memory form while
+    the vectorized form returns empty matrices (recorded, outside the property's quantifier). -/
+theorem empty_threshold_modes_differ (C : Nat) (rows : List (List Q)) (labs : List Nat) (hl : ∀ l ∈ labs, l < C) :
+    mcMemory [] C rows labs = .error .runtime ∧ mcVectorized [] C rows labs = .ok ([], [], []) := by
+  have hall : labs.all (· < C) = true := by simpa using hl
+  unfold mcMemory mcVectorized
+  simp [hall]
+
+example : mcMemory [1/4, 1/2] 2 [[1/8, 1/2], [1/2, 1/4]] [1, 0] = .ok ([[1, 1], [1, 1]], [[0, 1], [0, 0]], [[0, 0], [0, 0]]) := by
+  rw [multiclass_memory_counts_eq _ _ _ _ (by decide +kernel) (by decide) (by decide) (by decide) (by decide)]
+  congr 1; decide +kernel
+example : mlMemory [0, 1/2] 2 [[1/8, 1/2], [1/2, 1/4]] [[1, 1], [0, 1]] = .ok (mlVectorized [0, 1/2] 2 [[1/8, 1/2], [1/2, 1/4]] [[1, 1], [0, 1]]) :=
+  (vectorized_eq_memory_multilabel _ _ _ _ (by decide +kernel) (by decide) (by decide) (by decide) (by decide)).symm
+
+/-! ## 4. `_compute`: the reported curve is precision / recall by counting -/
+
+/-- `_binary_binned_precision_recall_curve_compute` applied to the per-threshold counts is the
+    documented curve: `precision[j] = TP_j/(TP_j+FP_j)` (`1` when nothing is predicted positive),
+    `recall[j] = TP_j/(TP_j+FN_j)` (NaN without positives), then the appended point `(1, 0)`. -/
+theorem binned_curve_eq (s : Samples) (t : List Q) :
+    curveCompute (t.map fun u => ((tpAt s u : Nat) : Q)) (t.map fun u => ((fpAt s u : Nat) : Q))
+      (t.map fun u => ((fnAt s u : Nat) : Q)) = curve s t :=
+  curveCompute_counts s t
+
+/-- the whole binary functional (`_update` then `_compute`) on a valid input. -/
+theorem binary_binned_curve_eq (t xs : List Q) (ys : List Nat)
+    (hs : t.Pairwise (· ≤ ·)) (hne : t ≠ []) (hlen : xs.length = ys.length) (hy : ∀ y ∈ ys, y ≤ 1) :
+    (binaryUpdate t xs ys).map (fun c => curveCompute c.1 c.2.1 c.2.2) = .ok (curve (xs.zip ys) t) := by
+  rw [binned_counts_eq t xs ys hs hne hlen hy]
+  exact congrArg Except.ok (binned_curve_eq (xs.zip ys) t)
+
+/-- multiclass / multilabel `_compute` on the count matrices: one documented curve per class / label. -/
+theorem binned_curve_eq_mat (view : Nat → Samples) (S : Nat) (t : List Q) :
+    curveComputeMat S (countMats view S t).1 (countMats view S t).2.1 (countMats view S t).2.2
+      = (List.range S).map fun s => curve (view s) t := by
+  unfold curveComputeMat countMats
+  apply List.map_congr_left
+  intro s hs
+  have hs : s < S := List.mem_range.mp hs
+  simp only [column_map_range t S _ s hs]
+  exact binned_curve_eq (view s) t
+
+/-- value of a precision entry under its guard … -/
+theorem curve_precision_val (s : Samples) (u : Q) (h : (tpAt s u : Q) + (fpAt s u : Q) ≠ 0) :
+    (match precisionAt s u with | .nan => XQ.val 1 | p => p)
+      = .val ((tpAt s u : Q) / ((tpAt s u : Q) + (fpAt s u : Q))) := by
+  unfold precisionAt xdiv; simp [h]
+
+/-- … and the documented convention when nothing is predicted positive at `u`: precision `1`. -/
+theorem curve_precision_empty (s : Samples) (u : Q) (h : tpAt s u + fpAt s u = 0) :
+    (match precisionAt s u with | .nan => XQ.val 1 | p => p) = .val 1 := by
+  have h1 : tpAt s u = 0 := by omega
+  have h2 : fpAt s u = 0 := by omega
+  have h3 : (0 : Q) + 0 = 0 := by grind
+  unfold precisionAt xdiv; simp [h1, h2, h3]
+
+/-- recall under its guard … -/
+theorem curve_recall_val (s : Samples) (u : Q) (h : (tpAt s u : Q) + (fnAt s u : Q) ≠ 0) :
+    recallAt s u = .val ((tpAt s u : Q) / ((tpAt s u : Q) + (fnAt s u : Q))) := by
+  unfold recallAt xdiv; simp [h]
+
+/-- … and without any positive sample the recall is `NaN` (0/0), at every threshold. -/
+theorem curve_recall_nan (s : Samples) (u : Q) (h : s.countP (fun p => p.2 == 1) = 0) :
+    recallAt s u = .nan := by
+  have := pos_split s u
+  have h1 : tpAt s u = 0 := by omega
+  have h2 : fnAt s u = 0 := by omega
+  have h3 : (0 : Q) + 0 = 0 := by grind
+  unfold recallAt xdiv; simp [h1, h2, h3]
+
+example : curve [(1/8, 1), (1/4, 0), (1/2, 1), (1, 1)] [1/4, 1/2, 1]
+    = ([.val (2/3), .val 1, .val 1, .val 1], [.val (2/3), .val (2/3), .val (1/3), .val 0]) := by decide +kernel
+example : ((tpAt [(1/8, 1), (1/4, 0)] (1/2) : Nat) + fpAt [(1/8, 1), (1/4, 0)] (1/2) = 0) := by decide +kernel
+
 end TE.C06
